@@ -218,4 +218,5 @@ pub fn run(run: &Run) {
     run.explore_with(&super::c11::EmbeddedTlv { n: run.tier.pick(6, 8) }, judge_v2);
     run.explore_with(&super::c11::EmbeddedText { n: run.tier.pick(6, 8) }, judge_v2);
     run.explore_with(&super::c11::EmbeddedStructured::new(false), judge_v2);
+    run.explore_with(&super::c11::NearMaxStructured { span: run.tier.pick(8, 35) }, judge_v2);
 }
